@@ -116,6 +116,14 @@ def run_m(res):
         "profiles": ["overflow-checks=on (dev)", "overflow-checks=off (release)"],
         "sample": [{"program": r["name"], "profiles": r["profiles"]} for r in ok[:4]],
     }
+    # programs with control flow / calls are outside by design; an instruction arm that used to be interpretable and no longer
+    # is (a call or statement the interpreter does not model) must not count as "held"
+    by_design = ("LIR instruction Switch", "LIR instruction Call", "LIR instruction Jump", "LIR instruction CallRuntime", "LIR instruction Copy",
+                 "LIR instruction Write", "LIR instruction Read", "LIR instruction Offset", "LIR instruction Initialize", "LIR instruction Clone",
+                 "LIR instruction Drop", "LIR instruction Eq", "LIR instruction InitString")
+    for r in unsup:
+        if not any(b in r["reason"] for b in by_design):
+            res.inconclusive.append(f"engine M: {r['name']}: {r['reason'][:200]}")
     if len(results) and len(unsup) / len(results) > 0.25:
         res.inconclusive.append(f"engine M: {len(unsup)} of {len(results)} programs unsupported")
     res.cov["programs"] = res.cov.get("programs", 0) + len(ok)
